@@ -111,7 +111,7 @@ fn peer_trailers(kind: &str) -> Vec<u8> {
 
 /// bytes of one script event; None for FIN / RESET
 fn event_bytes(role: Role, t: &str) -> Option<Vec<u8>> {
-    if t == "F" || t.starts_with('R') {
+    if t == "F" || t == "K" || t.starts_with('R') {
         return None;
     }
     if let Some(n) = t.strip_prefix("hp") {
@@ -194,6 +194,8 @@ fn deliver(w: &Shared, id: u64, role: Role, t: &str) {
     let mut g = w.lock().unwrap();
     if t == "F" {
         g.push(id, Ev::Fin);
+    } else if t == "K" {
+        g.push(id, Ev::Unknown);
     } else if let Some(c) = t.strip_prefix('R') {
         g.push(id, Ev::Reset(c.parse().unwrap()));
     } else {
@@ -222,6 +224,10 @@ fn yield_now() -> YieldNow {
 #[derive(Default)]
 struct Obs {
     res: Option<String>,
+    /// split(): result of the task driving the send half; the future of that task, handed to the harness to spawn
+    sres: Option<String>,
+    send_task: Option<Task>,
+    split: bool,
     data: Vec<u8>,
     trailers: bool,
     sid: Option<u64>,
@@ -230,6 +236,11 @@ type ObsRef = Rc<RefCell<Obs>>;
 
 fn fail(o: &ObsRef, api: &str, e: &h3::error::StreamError) -> String {
     o.borrow_mut().res = Some(format!("err:{}:{}", api, stream_err(e)));
+    String::new()
+}
+
+fn fail_s(o: &ObsRef, api: &str, e: &h3::error::StreamError) -> String {
+    o.borrow_mut().sres = Some(format!("err:{}:{}", api, stream_err(e)));
     String::new()
 }
 
@@ -353,6 +364,177 @@ async fn client_task(sr: Sender, o: ObsRef, body: Vec<u8>, pad: usize, tz: Optio
     String::new()
 }
 
+// ------------------------------------------------------------------ other application patterns (family sfx: checked against the
+// specification table, the solo run and the completion bound; the Coq model has the receive-everything-then-answer pattern only)
+fn response(pad: usize) -> http::Response<()> {
+    let mut resp = http::Response::builder().status(200).body(()).unwrap();
+    if let Some((n, v)) = pad_header(pad) {
+        resp.headers_mut().insert(n, v);
+    }
+    resp
+}
+
+/// early response: the server answers before the request body is drained
+async fn server_task_early(resolver: h3::server::RequestResolver<SimConn, Bytes>, o: ObsRef, body: Vec<u8>, pad: usize, tz: Option<u64>) -> String {
+    let (_req, mut stream) = match resolver.resolve_request().await {
+        Ok(x) => x,
+        Err(e) => return fail(&o, "resolve", &e),
+    };
+    if let Err(e) = stream.send_response(response(pad)).await {
+        return fail(&o, "sendresp", &e);
+    }
+    recv_body!(stream, o);
+    recv_trl!(stream, o);
+    yield_now().await;
+    if let Err(e) = stream.send_data(Bytes::from(body)).await {
+        return fail(&o, "senddata", &e);
+    }
+    yield_now().await;
+    if let Some(m) = our_trailers(tz) {
+        if let Err(e) = stream.send_trailers(m).await {
+            return fail(&o, "sendtrl", &e);
+        }
+    }
+    if let Err(e) = stream.finish().await {
+        return fail(&o, "finish", &e);
+    }
+    o.borrow_mut().res = Some("ok".into());
+    String::new()
+}
+
+/// split(): the two halves are driven by separate tasks
+async fn server_task_split(resolver: h3::server::RequestResolver<SimConn, Bytes>, o: ObsRef, body: Vec<u8>, pad: usize, tz: Option<u64>) -> String {
+    let (_req, stream) = match resolver.resolve_request().await {
+        Ok(x) => x,
+        Err(e) => return fail(&o, "resolve", &e),
+    };
+    let (mut send, mut recv) = stream.split();
+    let o2 = o.clone();
+    let fut: Task = Box::pin(async move {
+        if let Err(e) = send.send_response(response(pad)).await {
+            return fail_s(&o2, "sendresp", &e);
+        }
+        yield_now().await;
+        if let Err(e) = send.send_data(Bytes::from(body)).await {
+            return fail_s(&o2, "senddata", &e);
+        }
+        yield_now().await;
+        if let Some(m) = our_trailers(tz) {
+            if let Err(e) = send.send_trailers(m).await {
+                return fail_s(&o2, "sendtrl", &e);
+            }
+        }
+        if let Err(e) = send.finish().await {
+            return fail_s(&o2, "finish", &e);
+        }
+        o2.borrow_mut().sres = Some("ok".into());
+        String::new()
+    });
+    o.borrow_mut().send_task = Some(fut);
+    recv_body!(recv, o);
+    recv_trl!(recv, o);
+    o.borrow_mut().res = Some("ok".into());
+    String::new()
+}
+
+fn request(pad: usize) -> http::Request<()> {
+    let mut req = http::Request::builder().method("POST").uri("https://a/").body(()).unwrap();
+    if let Some((n, v)) = pad_header(pad) {
+        req.headers_mut().insert(n, v);
+    }
+    req
+}
+
+/// early response on the client: it finishes sending only after the response headers arrived
+async fn client_task_early(mut sr: h3::client::SendRequest<SimOpener, Bytes>, o: ObsRef, body: Vec<u8>, pad: usize, tz: Option<u64>) -> String {
+    let mut stream = match sr.send_request(request(pad)).await {
+        Ok(s) => s,
+        Err(e) => return fail(&o, "sendreq", &e),
+    };
+    o.borrow_mut().sid = Some(stream.id().into_inner());
+    yield_now().await;
+    if let Err(e) = stream.send_data(Bytes::from(body)).await {
+        return fail(&o, "senddata", &e);
+    }
+    if let Err(e) = stream.recv_response().await {
+        return fail(&o, "recvresp", &e);
+    }
+    if let Some(m) = our_trailers(tz) {
+        if let Err(e) = stream.send_trailers(m).await {
+            return fail(&o, "sendtrl", &e);
+        }
+    }
+    if let Err(e) = stream.finish().await {
+        return fail(&o, "finish", &e);
+    }
+    recv_body!(stream, o);
+    recv_trl!(stream, o);
+    o.borrow_mut().res = Some("ok".into());
+    String::new()
+}
+
+async fn client_task_plain(mut sr: h3::client::SendRequest<SimOpener, Bytes>, o: ObsRef, body: Vec<u8>, pad: usize, tz: Option<u64>) -> String {
+    let mut stream = match sr.send_request(request(pad)).await {
+        Ok(s) => s,
+        Err(e) => return fail(&o, "sendreq", &e),
+    };
+    o.borrow_mut().sid = Some(stream.id().into_inner());
+    yield_now().await;
+    if let Err(e) = stream.send_data(Bytes::from(body)).await {
+        return fail(&o, "senddata", &e);
+    }
+    yield_now().await;
+    if let Some(m) = our_trailers(tz) {
+        if let Err(e) = stream.send_trailers(m).await {
+            return fail(&o, "sendtrl", &e);
+        }
+    }
+    if let Err(e) = stream.finish().await {
+        return fail(&o, "finish", &e);
+    }
+    if let Err(e) = stream.recv_response().await {
+        return fail(&o, "recvresp", &e);
+    }
+    recv_body!(stream, o);
+    recv_trl!(stream, o);
+    o.borrow_mut().res = Some("ok".into());
+    String::new()
+}
+
+async fn client_task_split(mut sr: h3::client::SendRequest<SimOpener, Bytes>, o: ObsRef, body: Vec<u8>, pad: usize, tz: Option<u64>) -> String {
+    let stream = match sr.send_request(request(pad)).await {
+        Ok(s) => s,
+        Err(e) => return fail(&o, "sendreq", &e),
+    };
+    o.borrow_mut().sid = Some(stream.id().into_inner());
+    let (mut send, mut recv) = stream.split();
+    let o2 = o.clone();
+    let fut: Task = Box::pin(async move {
+        if let Err(e) = send.send_data(Bytes::from(body)).await {
+            return fail_s(&o2, "senddata", &e);
+        }
+        yield_now().await;
+        if let Some(m) = our_trailers(tz) {
+            if let Err(e) = send.send_trailers(m).await {
+                return fail_s(&o2, "sendtrl", &e);
+            }
+        }
+        if let Err(e) = send.finish().await {
+            return fail_s(&o2, "finish", &e);
+        }
+        o2.borrow_mut().sres = Some("ok".into());
+        String::new()
+    });
+    o.borrow_mut().send_task = Some(fut);
+    if let Err(e) = recv.recv_response().await {
+        return fail(&o, "recvresp", &e);
+    }
+    recv_body!(recv, o);
+    recv_trl!(recv, o);
+    o.borrow_mut().res = Some("ok".into());
+    String::new()
+}
+
 // ------------------------------------------------------------------ one run of a case
 struct ReqSpec {
     events: Vec<String>,
@@ -361,11 +543,13 @@ struct ReqSpec {
     hsize: u64,
     body: Vec<u8>,
     trl: Option<u64>,
+    /// application pattern: n = receive everything then answer (modelled), e = early response, s = split()
+    mode: char,
 }
 
 fn parse_req(s: &str) -> ReqSpec {
     let f: Vec<&str> = s.split(';').collect();
-    assert!(f.len() == 6, "driver: request spec");
+    assert!(f.len() == 6 || f.len() == 7, "driver: request spec");
     ReqSpec {
         events: if f[0] == "-" { vec![] } else { f[0].split('.').map(|x| x.to_string()).collect() },
         stop: if f[1] == "-" { None } else { Some(f[1].parse().unwrap()) },
@@ -373,6 +557,7 @@ fn parse_req(s: &str) -> ReqSpec {
         hsize: f[3].parse().unwrap(),
         body: unhex(f[4]),
         trl: if f[5] == "-" { None } else { Some(f[5].parse().unwrap()) },
+        mode: f.get(6).and_then(|m| m.chars().next()).unwrap_or('n'),
     }
 }
 
@@ -461,7 +646,7 @@ struct Outcome {
     conn: String,
 }
 
-fn run_case(role: Role, reqs: &[ReqSpec], sched: &[&str], grease: bool, unk: bool) -> Outcome {
+fn run_case(role: Role, reqs: &[ReqSpec], sched: &[&str], grease: bool, unk: bool, budget: Option<u64>, ext: bool) -> Outcome {
     let n = reqs.len();
     let side = if role == Role::Server { Side::Server } else { Side::Client };
     let w = World::new(side, 1000, 1000, None);
@@ -471,6 +656,8 @@ fn run_case(role: Role, reqs: &[ReqSpec], sched: &[&str], grease: bool, unk: boo
     let obs: Vec<ObsRef> = (0..n).map(|_| Rc::new(RefCell::new(Obs::default()))).collect();
     let mut next_ev = vec![0usize; n];
     let mut task: Vec<Option<usize>> = vec![None; n];
+    let mut task_q: Vec<Option<usize>> = vec![None; n]; // split(): the send-half tasks
+    let mut early_grant: Vec<u64> = vec![0; n];
     // client role: events / stop that arrive before the request has a stream
     let mut early: Vec<Vec<usize>> = vec![Vec::new(); n];
     let mut early_stop: Vec<Option<u64>> = vec![None; n];
@@ -539,14 +726,31 @@ fn run_case(role: Role, reqs: &[ReqSpec], sched: &[&str], grease: bool, unk: boo
                 conn_err(&e).split(':').nth(1).unwrap_or("?").to_string()
             });
             ex.poll(driver);
-            let sr: Sender = Rc::new(RefCell::new(sr));
-            for i in 0..n {
-                task[i] = Some(ex.spawn(client_task(sr.clone(), obs[i].clone(), reqs[i].body.clone(), reqs[i].pad, reqs[i].trl)));
+            if ext {
+                for i in 0..n {
+                    let (o, b, p, t) = (obs[i].clone(), reqs[i].body.clone(), reqs[i].pad, reqs[i].trl);
+                    obs[i].borrow_mut().split = reqs[i].mode == 's';
+                    task[i] = Some(match reqs[i].mode {
+                        'e' => ex.spawn(client_task_early(sr.clone(), o, b, p, t)),
+                        's' => ex.spawn(client_task_split(sr.clone(), o, b, p, t)),
+                        _ => ex.spawn(client_task_plain(sr.clone(), o, b, p, t)),
+                    });
+                }
+                keep.borrow_mut().push(Box::new(sr)); // the last SendRequest must outlive the run (its drop closes the connection)
+            } else {
+                let sr: Sender = Rc::new(RefCell::new(sr));
+                for i in 0..n {
+                    task[i] = Some(ex.spawn(client_task(sr.clone(), obs[i].clone(), reqs[i].body.clone(), reqs[i].pad, reqs[i].trl)));
+                }
+                sender = Some(sr);
             }
-            sender = Some(sr);
         }
     }
 
+    if let Some(b) = budget {
+        // write back-pressure on the request streams only (the connection's own streams were opened during setup)
+        assert!(apply_event(&w, &format!("W*:{}", b)));
+    }
     let poll_driver = |ex: &mut Exec, k: usize| {
         for _ in 0..k {
             ex.poll(driver);
@@ -580,6 +784,20 @@ fn run_case(role: Role, reqs: &[ReqSpec], sched: &[&str], grease: bool, unk: boo
             poll_driver(&mut ex, 3);
             continue;
         }
+        if let Some(r) = a.strip_prefix('w') {
+            // w<i>:<k>: the transport accepts k more bytes on request i's stream
+            let (i, k) = r.split_once(':').expect("driver: grant");
+            let (i, k): (usize, u64) = (i.parse().unwrap(), k.parse().unwrap());
+            let sid = match role {
+                Role::Server => Some(4 * i as u64),
+                Role::Client => obs[i].borrow().sid,
+            };
+            match sid {
+                Some(id) => w.lock().unwrap().grant_write(id, k),
+                None => early_grant[i] += k,
+            }
+            continue;
+        }
         let i: usize = a[1..].parse().unwrap();
         assert!(i < n, "driver: request index");
         match (&a[..1], role) {
@@ -589,7 +807,13 @@ fn run_case(role: Role, reqs: &[ReqSpec], sched: &[&str], grease: bool, unk: boo
                 if task[i].is_none() {
                     if let Some(r) = accepted.borrow_mut().pop_front() {
                         obs[i].borrow_mut().sid = Some(4 * i as u64);
-                        task[i] = Some(ex.spawn(server_task(r, obs[i].clone(), reqs[i].body.clone(), reqs[i].pad, reqs[i].trl)));
+                        let (o, b, p, t) = (obs[i].clone(), reqs[i].body.clone(), reqs[i].pad, reqs[i].trl);
+                        obs[i].borrow_mut().split = reqs[i].mode == 's';
+                        task[i] = Some(match reqs[i].mode {
+                            'e' => ex.spawn(server_task_early(r, o, b, p, t)),
+                            's' => ex.spawn(server_task_split(r, o, b, p, t)),
+                            _ => ex.spawn(server_task(r, o, b, p, t)),
+                        });
                     }
                 }
             }
@@ -639,6 +863,10 @@ fn run_case(role: Role, reqs: &[ReqSpec], sched: &[&str], grease: bool, unk: boo
                         if let Some(c) = early_stop[i].take() {
                             w.lock().unwrap().peer_stop(id, c);
                         }
+                        if early_grant[i] > 0 {
+                            w.lock().unwrap().grant_write(id, early_grant[i]);
+                            early_grant[i] = 0;
+                        }
                         ex.poll(t);
                         let opened = w.lock().unwrap().next_bidi != id;
                         if !opened {
@@ -651,6 +879,18 @@ fn run_case(role: Role, reqs: &[ReqSpec], sched: &[&str], grease: bool, unk: boo
                     } else {
                         ex.poll(t);
                     }
+                    // split(): the task has created the future that drives the send half
+                    if task_q[i].is_none() {
+                        let fut = obs[i].borrow_mut().send_task.take();
+                        if let Some(f) = fut {
+                            task_q[i] = Some(ex.spawn(f));
+                        }
+                    }
+                }
+            }
+            ("q", _) => {
+                if let Some(t) = task_q[i] {
+                    ex.poll(t);
                 }
             }
             _ => panic!("driver: action {}", a),
@@ -662,7 +902,16 @@ fn run_case(role: Role, reqs: &[ReqSpec], sched: &[&str], grease: bool, unk: boo
     let mut out = Vec::new();
     for i in 0..n {
         let o = obs[i].borrow();
-        let res = o.res.clone().unwrap_or_else(|| "run".into());
+        let mut res = o.res.clone().unwrap_or_else(|| "run".into());
+        if o.split {
+            // <receive half>&<send half>; `-`: the halves were never created (the request ended before split())
+            let sres = match (&o.sres, task_q[i].is_some() || o.send_task.is_some()) {
+                (Some(x), _) => x.clone(),
+                (None, true) => "run".to_string(),
+                (None, false) => "-".to_string(),
+            };
+            res = format!("{}&{}", res, sres);
+        }
         let (t, c) = match o.sid {
             Some(id) => {
                 let mut calls: Vec<String> = Vec::new();
@@ -697,12 +946,15 @@ fn run_case(role: Role, reqs: &[ReqSpec], sched: &[&str], grease: bool, unk: boo
 }
 
 fn touches(j: usize, a: &str) -> bool {
+    if let Some(r) = a.strip_prefix('w') {
+        return r.split(':').next().and_then(|x| x.parse::<usize>().ok()) == Some(j);
+    }
     a == "pd" || a.starts_with('g') || a[1..].parse::<usize>() == Ok(j)
 }
 
 fn main() {
     run_lines(|ws| match ws {
-        ["sf", role, cf, rs, sc] if cf.starts_with("cfg=") && rs.starts_with("r=") && sc.starts_with("sched=") => {
+        ["sf" | "sfx", role, cf, rs, sc] if cf.starts_with("cfg=") && rs.starts_with("r=") && sc.starts_with("sched=") => {
             let role = match *role {
                 "s" => Role::Server,
                 "c" => Role::Client,
@@ -724,11 +976,13 @@ fn main() {
             let mut it = cf[4..].split(',');
             let holder: Option<usize> = it.next().and_then(|x| x.strip_prefix('g')).and_then(|x| x.parse().ok());
             let unk = it.next() == Some("u1");
-            let full = run_case(role, &reqs, &sched, holder.is_some(), unk);
+            let budget: Option<u64> = it.next().and_then(|x| x.strip_prefix('b')).and_then(|x| x.parse().ok());
+            let ext = ws[0] == "sfx";
+            let full = run_case(role, &reqs, &sched, holder.is_some(), unk, budget, ext);
             let mut diffs: Vec<String> = Vec::new();
             for j in 0..reqs.len() {
                 let sj: Vec<&str> = sched.iter().copied().filter(|a| touches(j, a)).collect();
-                let solo = run_case(role, &reqs, &sj, holder == Some(j), unk);
+                let solo = run_case(role, &reqs, &sj, holder == Some(j), unk, budget, ext);
                 if solo.reqs[j] != full.reqs[j] {
                     diffs.push(j.to_string());
                 }
